@@ -1038,7 +1038,7 @@ func (d *Dialer) markAvailableTraffic(typ *NetworkType) collectionUpdate {
 
 func (d *Dialer) informDialerGroupUpdate(update collectionUpdate) {
 	for _, a := range update.aliveDialerGroups {
-		a.NotifyLatencyChange(d, update.alive)
+		a.NotifyAliveState(d)
 	}
 }
 
